@@ -49,6 +49,10 @@ struct P {
     #[serde(default)]
     with: Vec<Option<Op>>,
     link: LinkCfg,
+    /// fault kind `cancel_task`: the last later operation (an `at` / `remove` of an interface, run alone) is
+    /// dropped at its n-th await point; whether it took effect is then open, but the client must still track
+    #[serde(default)]
+    cancel_last: Option<u32>,
 }
 
 type View = BTreeMap<String, BTreeMap<String, BTreeMap<String, String>>>;
@@ -135,7 +139,7 @@ impl Scenario for C25Scn {
         "C25"
     }
     fn rule(&self) -> &'static str {
-        "a real client subscribes to ObjectManager signals, calls GetManagedObjects on the manager it follows (at / or /a) while, optionally, a registration or removal runs concurrently on the server, and from then on applies every InterfacesAdded / InterfacesRemoved it received since sending that call, in order and idempotently; the server runs a history of 0..6 further at / remove operations, a third of them concurrently with a second operation (often the inverse one on the same path and interface; one interface has an async property getter that really yields), over 6 paths (nested, and the managers' own paths) x 3 interface types, including adding and removing ObjectManager itself and a second, sibling manager; after every operation (quiescence) the client's view must equal a fresh GetManagedObjects of that manager, including each interface's properties, ignoring paths without interfaces; when the followed manager disappears the client starts over from a fresh listing once it is back; non-trivial = a registration happened between the client's call and its reply, or the history touched a manager"
+        "a real client subscribes to ObjectManager signals, calls GetManagedObjects on the manager it follows (at / or /a) while, optionally, a registration or removal runs concurrently on the server, and from then on applies every InterfacesAdded / InterfacesRemoved it received since sending that call, in order and idempotently; the server runs a history of 0..6 further at / remove operations, a third of them concurrently with a second operation (often the inverse one on the same path and interface; one interface has an async property getter that really yields), over 6 paths (nested, and the managers' own paths) x 3 interface types, including adding and removing ObjectManager itself and a second, sibling manager; after every operation (quiescence) the client's view must equal a fresh GetManagedObjects of that manager, including each interface's properties, ignoring paths without interfaces; when the followed manager disappears the client starts over from a fresh listing once it is back; in a quarter of the runs the last operation (an at / remove run alone) is cancelled at one of its first await points (fault kind cancel_task): whether it took effect is open, the client view must still equal a fresh listing; non-trivial = a registration happened between the client's call and its reply, or the history touched a manager"
     }
     fn runs(&self, tier: Tier) -> u64 {
         match tier {
@@ -169,7 +173,7 @@ impl Scenario for C25Scn {
         let during_snapshot = if rng.chance(1, 2) { Some(gen(rng)) } else { None };
         let ops: Vec<Op> = (0..rng.below(7)).map(|_| gen(rng)).collect();
         // concurrent partner: often the inverse operation on the same path and interface
-        let with = ops
+        let with: Vec<Option<Op>> = ops
             .iter()
             .map(|op| {
                 if !rng.chance(1, 3) {
@@ -183,7 +187,17 @@ impl Scenario for C25Scn {
             })
             .collect();
         let sched = SchedCfg::generate(rng, &["signals", "socket reader", "obj_server_task"]);
-        (sched, j(&P { follow, initial, during_snapshot, ops, with, link: gen_read_cfg(rng) }))
+        let mut with = with;
+        let cancel_last = if !ops.is_empty() && matches!(ops[ops.len() - 1], Op::At(..) | Op::Remove(..)) && rng.chance(1, 4) {
+            let last = ops.len() - 1;
+            if with.len() > last {
+                with[last] = None;
+            }
+            Some(rng.below(6) as u32)
+        } else {
+            None
+        };
+        (sched, j(&P { follow, initial, during_snapshot, ops, with, link: gen_read_cfg(rng), cancel_last }))
     }
 
     fn shrink(&self, body: &Value) -> Vec<Value> {
@@ -212,6 +226,11 @@ impl Scenario for C25Scn {
         if p.during_snapshot.is_some() {
             let mut q = p.clone();
             q.during_snapshot = None;
+            out.push(j(&q));
+        }
+        if let Some(n) = p.cancel_last {
+            let mut q = p.clone();
+            q.cancel_last = if n > 0 { Some(n - 1) } else { None };
             out.push(j(&q));
         }
         if p.link != LinkCfg::default() {
@@ -282,12 +301,13 @@ impl Scenario for C25Scn {
         }
 
         // run one server operation (and optionally a second one concurrently) to quiescence
+        let cancel_here = std::cell::Cell::new(None::<u32>);
         let run_ops = |op: Op, partner: Option<Op>, token: u32| -> (Result<String, String>, Option<Result<String, String>>) {
             let res = shared(None);
             let (r, s) = (res.clone(), server.clone());
-            let t = w.spawn("server-op", async move {
+            let t = w.spawn("server-op", cancel_after(w, cancel_here.get(), async move {
                 *r.lock().unwrap() = Some(do_op(&s, op, token).await);
-            });
+            }));
             let res2 = shared(None);
             let t2 = partner.map(|op2| {
                 let (r, s) = (res2.clone(), server.clone());
@@ -484,6 +504,28 @@ impl Scenario for C25Scn {
             for (k, op) in p.ops.iter().enumerate() {
                 let had = st.managers[p.follow as usize];
                 let partner = p.with.get(k).copied().flatten();
+                if let (Some(n), true, None, Op::At(..) | Op::Remove(..)) = (p.cancel_last, k + 1 == p.ops.len(), partner, op) {
+                    // the cancelled operation: no result, effect open; the client's view must still equal a fresh listing
+                    cancel_here.set(Some(n));
+                    let (r, _) = run_ops(*op, None, 2000 + k as u32);
+                    cancel_here.set(None);
+                    if r.is_err() {
+                        w.count("probe.server_operation_cancelled_midway");
+                    }
+                    if let (true, Some(v)) = (had, view.as_mut()) {
+                        let new_sigs: Vec<Signal> = sigs.lock().unwrap()[applied..].to_vec();
+                        for s in &new_sigs {
+                            apply(v, s, mpath);
+                        }
+                        if let Some(mut bad) = compare(v, &format!("after cancelled op {k} {op:?}")) {
+                            if let Some(viol) = bad.violation.as_mut() {
+                                viol.disc = format!("after-cancelled-operation-{}", viol.disc);
+                            }
+                            verdict = Some(bad);
+                        }
+                    }
+                    break;
+                }
                 let (r, r2) = run_ops(*op, partner, 2000 + k as u32);
                 if let Err(e) = &r {
                     verdict = Some(Verdict::fail("op", "operation-failed", format!("op {k} {op:?}: {e}")));
